@@ -234,6 +234,9 @@ func c02shapes() []*c02shape {
 		one("ed25519", c02singleSet(ED, "canon", false)),
 		one("eth-key", c02singleSet(ET, "canon", false)),
 		one("multisig-2of3-sorted", c02multiSet(2, M, []int{0, 1, 2}, cc, false)),
+		one("multisig-1of3-sorted", c02multiSet(1, M, []int{0, 1, 2}, cc, false)),
+		one("multisig-3of3-sorted", c02multiSet(3, M, []int{0, 1, 2}, cc, false)),
+		one("multisig-1of2-sorted", c02multiSet(1, M[:2], []int{0, 1}, cc[:2], false)),
 		one("multisig-2of3-unsorted", c02multiSet(2, M, []int{2, 0, 1}, cc, false)),
 		one("multisig-2of3-n-as-bytes", c02multiSet(2, M, []int{0, 1, 2}, cc, true)),
 		one("multisig-2of3-member-uncompressed", c02multiSet(2, M, []int{0, 1, 2}, []string{"canon", "uncompressed", "canon"}, false)),
@@ -429,7 +432,7 @@ func c02newEnv() *c02env {
 			e.seqQ = append(e.seqQ, t)
 		}
 	}
-	recordQ := map[string]bool{"p256-compressed": true, "p256-uncompressed": true, "eth-key": true, "multisig-2of3-sorted": true, "two-sets": true}
+	recordQ := map[string]bool{"p256-compressed": true, "p256-uncompressed": true, "eth-key": true, "multisig-2of3-sorted": true, "multisig-1of3-sorted": true, "two-sets": true}
 	extra := map[string]bool{"p256-compressed": true, "sm2": true, "two-sets": true}
 	nonce := uint32(100)
 	for _, sh := range e.shapes {
